@@ -531,4 +531,111 @@ theorem monthlyCombined_spec (mw me : List Rat) :
   rw [this, sum_map_mul_right, map_getElem!_range]; ring
 
 
+
+/-! ### non-negativity -/
+
+def NN (l : List Rat) : Prop := ∀ x ∈ l, 0 ≤ x
+
+theorem NN.sum {l : List Rat} (h : NN l) : 0 ≤ l.sum := by
+  induction l with
+  | nil => simp
+  | cons a rest ih =>
+    simp only [List.sum_cons]
+    have := h a (by simp)
+    have := ih fun x hx => h x (by simp [hx])
+    linarith
+
+theorem NN.sublist {l l' : List Rat} (h : NN l) (hs : ∀ x ∈ l', x ∈ l) : NN l' := fun x hx => h x (hs x hx)
+
+theorem NN.bucket {l : List Rat} (h : NN l) (b : Nat × Nat) : 0 ≤ bucket l b := by
+  unfold Units.bucket
+  exact (h.sublist fun x hx => List.mem_of_mem_take (List.mem_of_mem_drop hx)).sum
+
+theorem NN.zipWith_add : ∀ {a b : List Rat}, NN a → NN b → NN (List.zipWith (· + ·) a b)
+  | [], _, _, _ => by intro x hx; simp at hx
+  | _ :: _, [], _, _ => by intro x hx; simp at hx
+  | x :: a, y :: b, ha, hb => by
+    intro z hz
+    simp only [List.zipWith_cons_cons, List.mem_cons] at hz
+    rcases hz with rfl | hz
+    · have := ha x (by simp); have := hb y (by simp); linarith
+    · exact NN.zipWith_add (fun u hu => ha u (by simp [hu])) (fun u hu => hb u (by simp [hu])) z hz
+
+theorem NN.repeatEach {l : List Rat} (h : NN l) (n : Nat) : NN (repeatEach l n) := by
+  intro x hx
+  unfold Units.repeatEach at hx
+  obtain ⟨a, ha, hxa⟩ := List.mem_flatMap.mp hx
+  rw [(List.mem_replicate.mp hxa).2]; exact h a ha
+
+theorem sum_pos_of_ne {l : List Rat} (h : NN l) (hne : l.sum ≠ 0) : 0 < l.sum :=
+  lt_of_le_of_ne h.sum (Ne.symm hne)
+
+theorem monthlyWriting_nn {vol : Rat} {wp : List Rat} {wres : Nat} (hv : 0 ≤ vol) (hw : NN wp)
+    (hs : wp.sum ≠ 0) : NN (monthlyWriting vol wp wres) := by
+  unfold monthlyWriting
+  apply NN.repeatEach
+  intro x hx
+  obtain ⟨w, hwm, rfl⟩ := List.mem_map.mp hx
+  have h1 := hw w hwm
+  have h2 := sum_pos_of_ne hw hs
+  have h3 : (0 : Rat) ≤ (wres : Rat) := by exact_mod_cast Nat.zero_le wres
+  exact div_nonneg (mul_nonneg hv (div_nonneg h1 h2.le)) h3
+
+theorem monthlyEarning_nn {ep : List Rat} {eres : Nat} {c : Bool} (he : NN ep) (hs : ep.sum ≠ 0) :
+    NN (monthlyEarning ep eres c) := by
+  have hraw : NN (repeatEach (ep.map fun e => e / ep.sum / (eres : Rat)) eres) := by
+    apply NN.repeatEach
+    intro x hx
+    obtain ⟨w, hwm, rfl⟩ := List.mem_map.mp hx
+    have h3 : (0 : Rat) ≤ (eres : Rat) := by exact_mod_cast Nat.zero_le eres
+    exact div_nonneg (div_nonneg (he w hwm) (sum_pos_of_ne he hs).le) h3
+  have hhalf : NN ((repeatEach (ep.map fun e => e / ep.sum / (eres : Rat)) eres).map (· / 2)) := by
+    intro x hx
+    obtain ⟨w, hwm, rfl⟩ := List.mem_map.mp hx
+    exact div_nonneg (hraw w hwm) (by norm_num)
+  unfold monthlyEarning
+  simp only
+  cases c with
+  | false => simpa using hraw
+  | true =>
+    simp only [if_true]
+    apply NN.zipWith_add
+    · intro x hx
+      rcases List.mem_append.mp hx with h | h
+      · exact hhalf x h
+      · simp at h; rw [h]
+    · intro x hx
+      rcases List.mem_cons.mp hx with h | h
+      · rw [h]
+      · exact hhalf x h
+
+theorem foldl_zipWith_nn (rows : List (List Rat)) (acc : List Rat) (ha : NN acc)
+    (h : ∀ r ∈ rows, NN r) : NN (rows.foldl (fun acc r => List.zipWith (· + ·) acc r) acc) := by
+  induction rows generalizing acc with
+  | nil => simpa using ha
+  | cons r rest ih =>
+    simp only [List.foldl_cons]
+    exact ih _ (NN.zipWith_add ha (h r (by simp))) fun r' hr' => h r' (by simp [hr'])
+
+theorem monthlyCombined_nn {mw me : List Rat} (hw : NN mw) (he : NN me) : NN (monthlyCombined mw me) := by
+  unfold monthlyCombined
+  simp only
+  apply foldl_zipWith_nn
+  · intro x hx; rw [(List.mem_replicate.mp hx).2]
+  · intro r hr
+    obtain ⟨n, hn, rfl⟩ := List.mem_map.mp hr
+    have hn' : n < mw.length := by simpa using hn
+    intro x hx
+    obtain ⟨y, hy, rfl⟩ := List.mem_map.mp hx
+    have h1 : 0 ≤ mw[n]! := by
+      rw [getElem!_pos mw n hn']; exact hw _ (List.getElem_mem hn')
+    have h2 : 0 ≤ y := by
+      rcases List.mem_append.mp hy with h | h
+      · rcases List.mem_append.mp h with h | h
+        · rw [(List.mem_replicate.mp h).2]
+        · exact he y h
+      · rw [(List.mem_replicate.mp h).2]
+    exact mul_nonneg h1 h2
+
+
 end Bermuda.Units
